@@ -1417,7 +1417,8 @@ static WBXMLError parse_text(WBXMLEncoder *encoder, WBXMLTreeNode *node)
                 /** @todo We suppose that Opaque Data in SyncML messages can only be vCard or vCal documents. CHANGE THAT ! */
                 if (node->content != NULL) {
                     if (wbxml_buffer_get_cstr(node->content)[0] == 0x0a && wbxml_buffer_len(node->content) == 1) {
-                        wbxml_buffer_insert_cstr(node->content, (WB_UTINY*) "\r", 0);
+                        if (!wbxml_buffer_insert_cstr(node->content, (WB_UTINY*) "\r", 0))
+                            return WBXML_ERROR_NOT_ENOUGH_MEMORY;
                     }
                 }
             }
